@@ -1,10 +1,84 @@
 (* C03 — Container edits are applied to the OCI spec with the documented semantics. *)
-From Coq Require Import String Ascii List Bool ZArith.
-From CDI Require Import Base SpecModel Paths Oci Apply ApplySpec.
+From Coq Require Import String Ascii List Bool Arith ZArith.
+From CDI Require Import Base SpecModel Paths Oci Apply ApplySpec ApplyProofs.
 Import ListNotations.
 Open Scope string_scope.
 
-Example C03_env_known_finding_witness :
-  add_multiple_env ["FOO=1"] ["FOO=2"] = ["FOO=1"; "FOO=2"].
-Proof. reflexivity. Qed.
-Print Assumptions C03_env_known_finding_witness.
+(* For EVERY host (lstat oracle), every initial OCI spec with unique device paths and mount destinations and every valid
+   (loaded) edit list: Apply never dereferences a nil entry, succeeds exactly when every device node can be completed
+   from the host node, and then the resulting spec satisfies the whole declarative postcondition of ApplySpec.v
+   (devices_post, cgroup_post, mounts_post, hooks_post, gids_post, rdt_post, uid/gid/rest unchanged), and — outside the
+   class of known finding C03/env-existing-name — env_post. *)
+Theorem C03_apply_meets_spec : forall host e o,
+  wf_initial o = true -> valid_edits e = true ->
+  let r := apply host e o in
+  snd r <> 2 /\
+  (snd r = 0 <-> exists devs, all_some (map (expected_dev host (o_uid o) (o_gid o)) (somes (e_nodes e))) = Some devs) /\
+  (snd r = 0 ->
+     apply_post_but_env host e o (fst r) = true /\
+     (env_known_class (o_env o) (e_env e) = false -> env_post (o_env o) (e_env e) (o_env (fst r)) = true)).
+Proof. exact apply_meets_spec. Qed.
+Print Assumptions C03_apply_meets_spec.
+
+(* the environment postcondition for every initial environment and edit list outside the known-finding class ... *)
+Theorem C03_env_post : forall init entries,
+  env_known_class init entries = false -> env_post init entries (add_multiple_env init entries) = true.
+Proof. exact env_post_holds. Qed.
+Print Assumptions C03_env_post.
+(* ... and its failure inside the class (the dependency's defect, known finding C03/env-existing-name) *)
+Theorem C03_env_post_refuted : exists init entries,
+  env_known_class init entries = true /\ env_post init entries (add_multiple_env init entries) = false.
+Proof. exact env_post_refuted. Qed.
+Print Assumptions C03_env_post_refuted.
+
+(* mounts: the result is ordered by destination depth and keeps, for every depth, the previous relative order; these two
+   facts determine the list, so it is the result of ANY stable sort (no model of Go's sort.Stable is needed) *)
+Theorem C03_sort_sorted : forall l, sorted_by_depth (sort_mounts l) = true.
+Proof. exact sort_mounts_sorted. Qed.
+Print Assumptions C03_sort_sorted.
+Theorem C03_sort_stable : forall l k, depth_class k (sort_mounts l) = depth_class k l.
+Proof. exact sort_mounts_stable. Qed.
+Print Assumptions C03_sort_stable.
+Theorem C03_stable_sort_unique : forall l1 l2,
+  sorted_by_depth l1 = true -> sorted_by_depth l2 = true -> (forall k, depth_class k l1 = depth_class k l2) -> l1 = l2.
+Proof. intros l1 l2 H1 H2. apply stable_sort_unique; apply sorted_by_depth_srt; assumption. Qed.
+Print Assumptions C03_stable_sort_unique.
+
+(* replace-by-key steps (device paths, mount destinations) on lists with unique keys *)
+Theorem C03_devices_closed_form : forall l devs, nodup_s (map od_path l) = true ->
+  fold_left devstep devs l =
+  (filter (fun y => negb (mem_s (od_path y) (map od_path devs))) l ++ dedup_last od_path devs)%list.
+Proof. exact devsteps. Qed.
+Print Assumptions C03_devices_closed_form.
+
+(* nothing else changes *)
+Theorem C03_frame : forall host e o pairs,
+  expect_all host (o_uid o) (o_gid o) (somes (e_nodes e)) = Some pairs ->
+  let o' := apply_result e o pairs in
+  o_rest o' = o_rest o /\ o_uid o' = o_uid o /\ o_gid o' = o_gid o /\
+  (e_env e = [] -> o_env o' = o_env o) /\ (e_nodes e = [] -> o_devices o' = o_devices o /\ o_cgroup o' = o_cgroup o) /\
+  (e_mounts e = [] -> o_mounts o' = o_mounts o) /\ (e_hooks e = [] -> o_hooks o' = o_hooks o) /\
+  (e_gids e = [] -> o_gids o' = o_gids o) /\ (e_rdt e = None -> o_rdt o' = o_rdt o).
+Proof. exact apply_frame. Qed.
+Print Assumptions C03_frame.
+
+(* non-vacuity: a populated spec and an edit list with repeated paths, destinations and variable names *)
+Definition ex_host : hostfn := host_of [("/dev/a", ("c", 10, 1)%Z); ("/dev/b", ("b", 8, 0)%Z)].
+Definition ex_oci : oci :=
+  mkOci ["PATH=/bin"] 1000 1000 [5%Z]
+        [mkOciMount "/a/b" "bind" "/x" [] ""; mkOciMount "/a" "bind" "/y" [] ""] empty_hooks
+        [mkOciDev "/dev/a" "c" 1 1 None None None] [] None "rest".
+Definition ex_edits : edits :=
+  mkEdits ["A=1"; "B=2"; "A=3"]
+          [Some (mkDevnode "/dev/a" "" "" 0 0 None "" None None); Some (mkDevnode "/dev/b" "" "" 0 0 None "rw" None None);
+           Some (mkDevnode "/dev/a" "" "c" 5 6 None "" (Some 7%Z) None)]
+          [Some (mkHook "prestart" "/bin/h" [] [] None); Some (mkHook "poststop" "/bin/g" [] [] None)]
+          [Some (mkMount "/h1" "/a/b" [] ""); Some (mkMount "/h2" "/" [] ""); Some (mkMount "/h3" "/a/b" [] "")]
+          (Some (mkRdt "c" "" "" false false)) [0%Z; 5%Z; 6%Z; 6%Z].
+Example C03_hypotheses_satisfiable :
+  wf_initial ex_oci = true /\ valid_edits ex_edits = true /\ env_known_class (o_env ex_oci) (e_env ex_edits) = false /\
+  snd (apply ex_host ex_edits ex_oci) = 0 /\
+  o_env (fst (apply ex_host ex_edits ex_oci)) = ["PATH=/bin"; "A=3"; "B=2"] /\
+  map om_dest (o_mounts (fst (apply ex_host ex_edits ex_oci))) = ["/a"; "/"; "/a/b"] /\
+  o_gids (fst (apply ex_host ex_edits ex_oci)) = [5%Z; 6%Z].
+Proof. vm_compute. repeat split; reflexivity. Qed.
